@@ -40,6 +40,19 @@ CHECKS['C07'] = dict(
    technique='contract-based deductive verification: strongest-postcondition proof by ast->z3 VC generation + bounded audit of assumed contracts',
    design_ref='DESIGN.md 5 C07')
 
+CHECKS['C06'] = dict(
+   category='other',
+   text='Mixed. Proved (ast->z3 VCs on the ten real verify_* methods): the verdict is a function of column and constraint only, '
+        'so it is identical with and without detection (including the allowed_values shortcut, via the pigeonhole axiom), and '
+        'the detection hook is called exactly when detecting and the verdict is a failure on an existing field, once, with the '
+        "constraint's own value/precision/epsilon. Bounded (runtime contracts on real pandas code, labelled): per-record flags "
+        'equal the documented meaning per kind, nulls flagged only by type/max_nulls, n_failures = false flags, counts partition '
+        'the rows, output frame/file holds the failing records, stale/absent output files, input frame unchanged.',
+   note='Trusted: A-calc, A-card, A-pigeonhole, FP-REAL, pyvc encoding, z3/cvc5. The record-level sentences are decided only on the '
+        'enumerated frames (<=3/4 rows per family pool + seeded columns) x one option variant per case.',
+   technique='contract-based deductive verification of the verifier/hook protocol + bounded runtime contracts for record-level semantics',
+   design_ref='DESIGN.md 5 C06')
+
 NA_REASON = 'check under construction in this session (see DESIGN.md 8, build order)'
 
 def main():
